@@ -428,7 +428,8 @@ end LineStruct
 
 /-- `token_case` (243 rules): for every parameter setting and every region, the action the analysis
     produces makes a fix that keeps the folded code sequence (hypotheses as in C03.bfull_case_caseOnly:
-    character tables; the analysed token is a code token and not an extended identifier) -/
+    character tables; the analysed token is a code token).  Extended identifiers are no longer excluded:
+    the repaired analysis skips them, so they are "compared exactly" because they are never written. -/
 theorem bfull_case_codeSeq {E : Base.Case.Env} {lc uc fc : Char → Char}
     (T : Base.Case.CharWise E fold lc uc fc) (owner : String) (ho : owner ∈ Base.caseTokenOwners)
     (params : Base.KV) (p : Base.Case.Params) (old new : List Tok) (a : Base.Case.Action)
